@@ -117,6 +117,18 @@ def encoder_table(prog):
             if inner.kind == "cast" and peel(inner).kind == "arg":
                 table[b] = ("id",)
                 continue
+            # std summary: u8::escape_ascii / core::ascii::escape_default - \t \r \n \' \" \\ as two-character escapes, 0x20..=0x7e
+            # unchanged, everything else \xNN (lower case)
+            if inner.kind == "call" and method_name(inner.a) in ("u8::escape_ascii", "escape_default", "ascii::escape_default") and inner.kids and \
+                    peel(inner.kids[0]).kind in ("arg", "deref"):
+                std = {0x09: "\\t", 0x0d: "\\r", 0x0a: "\\n", 0x27: "\\'", 0x22: '\\"', 0x5c: "\\\\"}
+                if b in std:
+                    table[b] = ("lit", std[b])
+                elif 0x20 <= b <= 0x7e:
+                    table[b] = ("id",)
+                else:
+                    table[b] = ("hex", 2, True, "\\x")
+                continue
             # `char::from(byte)` is the same u8 -> char widening as `byte as char`
             if inner.kind == "call" and method_name(inner.a) in ("From::from", "Into::into", "char::from") and inner.kids and peel(inner.kids[0]).kind == "arg" \
                     and "char" in inner.a:
